@@ -102,15 +102,23 @@ def run(ctx):
     with tmp_dir(ctx) as d:
         for cfg in cfgs:
             res, path, n = ctx.generate('Download', cfg, workers=4)
-            k = 0
+            k = j = 0
+            # (the thorough alphabets give ~750 k terminal states: beyond 150 k a regular stride over the sorted
+            # case file is replayed and the run is marked as not exhaustive)
+            stride = max(1, -(-n // 150000))
+            if stride > 1:
+                ctx.exhaustive = False
             for case in tlc.read_cases(path):
                 k += 1
+                if k % stride:
+                    continue
+                j += 1
                 ctx.evaluations += 1
                 reqs = None
                 # every third case with a checksum file naming a non-ASCII file (Latin-1 bytes); every fifth case whose
                 # script has no empty / truncated body with an EMPTY published file (its valid copy is a zero-length file)
-                variant = dict(latin1=(k % 3 == 0))
-                if k % 5 == 0 and not ({'empty', 'trunc'} & set(case['script'])):
+                variant = dict(latin1=(j % 3 == 0))
+                if j % 5 == 0 and not ({'empty', 'trunc'} & set(case['script'])):
                     variant['good'] = b''
                 with ctx.guard('replay', case):
                     reqs, status, fin = call(ctx, d, case['prior'], case['script'], case['md5s'], **variant)
@@ -136,7 +144,7 @@ def run(ctx):
                                       case['reqs'], case['status'], case['file']),
                                   dict(case=case, observed=dict(reqs=reqs, status=status, file=fin),
                                        variant=dict(latin1=variant['latin1'], empty_published='good' in variant)))
-                if k % 97 == 1:
+                if j % 97 == 1:
                     ctx.sample(case)
             path.unlink()
             if k != n:
